@@ -21,8 +21,61 @@ drop +1 with a refusal); they are not part of the shedder model (`st=reset`: the
 them during the call — accepted).
 -/
 import GoZero.Base.Trace
+import GoZero.C02.Site
 namespace GoZero.C02H
 open GoZero
+open GoZero.C02 (Shedder)
+open GoZero.C02.Site
+
+def parseRat (s : String) : Option Rat :=
+  match s.splitOn "/" with
+  | [a] => a.toInt?.map fun n => (n : Rat)
+  | [a, b] => do
+    let n ← a.toInt?
+    let d ← b.toNat?
+    if d = 0 then none else some (mkRat n d)
+  | _ => none
+
+def showRat (r : Rat) : String := if r.den = 1 then s!"{r.num}" else s!"{r.num}/{r.den}"
+
+/-- float64 tolerance (relative 1e-9), as in the sequential driver. -/
+def nearR (a b : Rat) : Bool :=
+  let ab (x : Rat) : Rat := if x < 0 then -x else x
+  let m := if ab a < ab b then ab b else ab a
+  decide (ab (a - b) ≤ (1 / 1000000000) * (if m < 1 then 1 else m))
+
+def showRes (l : List Res) : String :=
+  s!"pass={(l.filter (· = Res.pass)).length} fail={(l.filter (· = Res.fail)).length}"
+
+def showStat (s : StatD) : String := s!"st={s.total}/{s.pass}/{s.drop}"
+
+/-- `depth` nested admitted requests, then their resolutions innermost first: flying and its average
+(`Shedder.release` is what both Pass and Fail do to them). -/
+def nestRelease (sh : Shedder) : Nat → Shedder
+  | 0 => sh
+  | n + 1 => nestRelease sh.release n
+
+/-- the `real` op shared by both call sites: the section's real shedder admits `depth` nested requests (its threshold
+is out of reach), every one of them is resolved exactly once whatever the innermost handler does. -/
+def realOp (r : Report) (sec line : Nat) (sh : Shedder) (depth : Nat) (fails : Bool) (obs : List String) : Report × Shedder := Id.run do
+  let mut r := r
+  let up : Shedder := { sh with flying := sh.flying + depth }
+  let sh' := nestRelease up depth
+  let st : StatD := ⟨depth, if fails then 0 else depth, 0⟩
+  let gotSt := kvStr obs "st"
+  if gotSt = "reset" then r := r.addCover "stat-reset"
+  let okAvg := ((kv? obs "avg").bind parseRat).map (nearR sh'.avgFlying) = some true
+  if kvNat obs "ran" 99 ≠ depth ∨ kvInt obs "peak" (-99) ≠ up.flying ∨ kvInt obs "flying" (-99) ≠ sh'.flying ∨ !okAvg
+      ∨ (gotSt ≠ "reset" ∧ s!"st={gotSt}" ≠ showStat st) then
+    r := r.mismatch sec line s!"ran={depth} peak={up.flying} flying={sh'.flying} avg={showRat sh'.avgFlying} {showStat st}" (joinSp obs)
+  -- monitor (clause 3 at the call site): in flight = requests inside their handlers
+  if kvInt obs "peak" (-99) ≠ (depth : Int) then
+    r := r.violation sec line s!"in-flight counter {kvInt obs "peak" (-99)} while {depth} requests are inside their handlers"
+  if kvInt obs "flying" (-99) ≠ 0 then
+    r := r.violation sec line s!"in-flight counter {kvInt obs "flying" (-99)} after every request has left its handler (promise not resolved exactly once)"
+  if gotSt ≠ "reset" ∧ s!"st={gotSt}" ≠ showStat st then
+    r := r.violation sec line s!"SheddingStat counted st={gotSt} for {depth} admitted requests ({if fails then "failed" else "passed"}), expected {showStat st}"
+  return (r, sh')
 
 /-- error kinds of the rpc harness for which `errors.Is(err, context.DeadlineExceeded)` holds. -/
 def isDeadline (kind : String) : Bool := kind = "deadline" || kind = "wrapped" || kind = "joined"
@@ -50,6 +103,10 @@ def stripSt (obs : List String) : List String := obs.filter fun t => !t.startsWi
 
 def runSection (r : Report) (s : Section) : Report := Id.run do
   let mut r := r
+  -- `real=1`: the section's real shedder (NewAdaptiveShedder with the default window and buckets)
+  let o := GoZero.C02.applyOpts []
+  let mut sh : Shedder := Shedder.new o.window o.buckets o.threshold 1
+  if kvNat s.cfg "real" 0 = 1 then r := r.addCover "section-real-shedder"
   for l in s.lines do
     r := { r with ops := r.ops + 1 }
     if l.obs.head? = some "PANIC" then
@@ -57,21 +114,39 @@ def runSection (r : Report) (s : Section) : Report := Id.run do
       r := r.mismatch s.idx l.idx "an observation" (joinSp l.obs)
       continue
     match l.op with
+    | "real" :: args =>
+      let depth := kvNat args "depth" 0
+      if depth = 0 ∨ kvNat s.cfg "real" 0 ≠ 1 then r := r.mismatch s.idx l.idx "bad-op" (joinSp l.op) else
+      let pn := kvNat args "panic" 0 = 1
+      match kv? args "err" with
+      | some kind =>
+        if !knownErrKinds.contains kind then r := r.mismatch s.idx l.idx "bad-op" (joinSp l.op) else
+        let fails := rpcFails (isDeadline kind) pn
+        r := r.addCover (if depth > 1 then (if pn then "real-rpc-nested-panic" else "real-rpc-nested") else if pn then "real-rpc-panic" else "real-rpc")
+        let (r', sh') := realOp r s.idx l.idx sh depth fails l.obs
+        r := r'; sh := sh'
+      | none =>
+        let pre := kvNat args "pre" 0
+        let o : HttpOutcome := { code := kvNat args "code" 0, again := kvNat args "again" 0, panics := pn, pre := if pre = 0 then 200 else pre }
+        let fails := httpFails o.lastCode
+        r := r.addCover (if depth > 1 then (if pn then "real-http-nested-panic" else "real-http-nested") else if pn then "real-http-panic" else "real-http")
+        if fails then r := r.addCover "real-http-fail"
+        let (r', sh') := realOp r s.idx l.idx sh depth fails l.obs
+        r := r'; sh := sh'
     | "req" :: args =>
       match (kv? args "allow").bind String.toNat?, (kv? args "code").bind String.toNat?, (kv? args "panic").bind String.toNat? with
       | some allow, some code, some pn =>
         let body := kvNat args "body" 0 = 1
         let again := kvNat args "again" 0
         let nilshed := kvNat args "nilshed" 0 = 1
-        -- what net/http puts on the wire: the first status wins (a body write implies 200)
-        let wire := if code ≠ 0 then code else if body then 200 else if again ≠ 0 then again else 200
-        -- what the shedding wrapper remembers: the last WriteHeader
-        let cw := if again ≠ 0 then again else if code ≠ 0 then code else 200
-        let (model, st) :=
-          if nilshed then (s!"status={wire} ran=1 early=0 pass=0 fail=0 allows=0", "st=0/0/0")
-          else if allow = 0 then ("status=503 ran=0 early=0 pass=0 fail=0 allows=1", "st=1/0/1")
-          else if cw = 503 then (s!"status={wire} ran=1 early=0 pass=0 fail=1 allows=1", "st=1/0/0")
-          else (s!"status={wire} ran=1 early=0 pass=1 fail=0 allows=1", "st=1/1/0")
+        let pre := kvNat args "pre" 0
+        let o : HttpOutcome := { code := code, body := body, again := again, panics := pn = 1, pre := if pre = 0 then 200 else pre }
+        let m := httpServe nilshed (allow = 1) o
+        let wire := m.status
+        let cw := o.lastCode
+        let model := s!"status={m.status} ran={if m.ran then 1 else 0} early={m.early} {showRes m.res} allows={m.asked}"
+        let st := showStat m.stat
+        if pre ≠ 0 ∧ !nilshed ∧ allow = 1 then r := r.addCover (if pre = 503 then "http-inherited-writer-503" else "http-inherited-writer")
         r := r.addCover (if nilshed then "http-nil-shedder" else if allow = 0 then "refused"
                          else if pn = 1 then (if cw = 503 then "panic-after-503" else "panic")
                          else if cw = 503 then "handler-503" else "handler-ok")
@@ -82,6 +157,10 @@ def runSection (r : Report) (s : Section) : Report := Id.run do
         if joinSp (stripSt l.obs) ≠ model ∨ (gotSt ≠ "reset" ∧ s!"st={gotSt}" ≠ st) then
           r := r.mismatch s.idx l.idx s!"{model} {st}" (joinSp l.obs)
         if !nilshed then r := callSiteMonitor r s.idx l.idx (allow = 1) l.obs
+        if !nilshed ∧ gotSt ≠ "reset" ∧ s!"st={gotSt}" ≠ st then
+          r := r.violation s.idx l.idx s!"SheddingStat counted st={gotSt}, expected {st} (total +1 per request, pass +1 with Pass, drop +1 with a refusal)"
+        if !nilshed ∧ allow = 1 ∧ kvNat l.obs "pass" 99 + kvNat l.obs "fail" 99 = 1 ∧ (kvNat l.obs "fail" 99 = 1) ≠ httpFails cw then
+          r := r.violation s.idx l.idx s!"request whose last status is {cw} was resolved by {if kvNat l.obs "fail" 99 = 1 then "Fail" else "Pass"} (Fail iff 503)"
         -- the documented refusal: 503 Service Unavailable
         if !nilshed ∧ allow = 0 ∧ kvNat l.obs "status" 0 ≠ 503 then
           r := r.violation s.idx l.idx s!"refused request did not get 503 (status={kvNat l.obs "status" 0})"
@@ -90,13 +169,11 @@ def runSection (r : Report) (s : Section) : Report := Id.run do
       match (kv? args "allow").bind String.toNat?, kv? args "err", (kv? args "panic").bind String.toNat? with
       | some allow, some kind, some pn =>
         if !knownErrKinds.contains kind then r := r.mismatch s.idx l.idx "bad-op" (joinSp l.op) else
-        let dl := isDeadline kind && pn = 0
-        let (model, st) :=
-          if allow = 0 then ("ret=ResourceExhausted:service-overloaded ran=0 early=0 pass=0 fail=0 allows=1", "st=1/0/1")
-          else
-            let ret := if pn = 1 then "panic" else if kind = "nil" then "nil" else "same"
-            if dl then (s!"ret={ret} ran=1 early=0 pass=0 fail=1 allows=1", "st=1/0/0")
-            else (s!"ret={ret} ran=1 early=0 pass=1 fail=0 allows=1", "st=1/1/0")
+        let dl := rpcFails (isDeadline kind) (pn = 1)
+        let m := rpcServe (allow = 1) (isDeadline kind) (pn = 1)
+        let ret := if allow = 0 then "ResourceExhausted:service-overloaded" else if pn = 1 then "panic" else if kind = "nil" then "nil" else "same"
+        let model := s!"ret={ret} ran={if m.ran then 1 else 0} early={m.early} {showRes m.res} allows={m.asked}"
+        let st := showStat m.stat
         r := r.addCover (if allow = 0 then "rpc-refused" else if pn = 1 then "rpc-panic" else s!"rpc-err-{kind}")
         if allow = 1 then r := r.addCover (if dl then "rpc-fail" else "rpc-pass")
         let gotSt := kvStr l.obs "st"
@@ -104,6 +181,10 @@ def runSection (r : Report) (s : Section) : Report := Id.run do
         if joinSp (stripSt l.obs) ≠ model ∨ (gotSt ≠ "reset" ∧ s!"st={gotSt}" ≠ st) then
           r := r.mismatch s.idx l.idx s!"{model} {st}" (joinSp l.obs)
         r := callSiteMonitor r s.idx l.idx (allow = 1) l.obs
+        if gotSt ≠ "reset" ∧ s!"st={gotSt}" ≠ st then
+          r := r.violation s.idx l.idx s!"SheddingStat counted st={gotSt}, expected {st} (total +1 per call, pass +1 with Pass, drop +1 with a refusal)"
+        if allow = 1 ∧ kvNat l.obs "pass" 99 + kvNat l.obs "fail" 99 = 1 ∧ (kvNat l.obs "fail" 99 = 1) ≠ dl then
+          r := r.violation s.idx l.idx s!"call ending with err={kind} panic={pn} was resolved by {if kvNat l.obs "fail" 99 = 1 then "Fail" else "Pass"} (Fail iff the handler returned an error that is context.DeadlineExceeded)"
         -- the documented refusal: a ResourceExhausted status
         if allow = 0 ∧ !(kvStr l.obs "ret").startsWith "ResourceExhausted:" then
           r := r.violation s.idx l.idx s!"refused rpc did not return codes.ResourceExhausted (ret={kvStr l.obs "ret"})"
